@@ -175,7 +175,7 @@ func c05Source(b *PB, ct *c05T, kind string, t *Ty, pkg int) (main *Item, suppor
 	return nil, nil, false
 }
 
-var c05Placements = []string{"direct", "nested+direct", "siblings", "otherpkg+direct", "unused-var(check)", "unneeded-part"}
+var c05Placements = []string{"direct", "nested+direct", "siblings", "otherpkg+direct", "unused-var(check)", "unneeded-part", "inline+direct", "two-levels+direct"}
 
 // c05Case builds the conflict program and its control twin for one cell.
 func c05Case(id string, k1, k2, class, placement string, alias bool) (mut, ctl *Program, name string, ok bool) {
@@ -235,17 +235,24 @@ func c05Case(id string, k1, k2, class, placement string, alias bool) (mut, ctl *
 		switch placement {
 		case "direct":
 			bl = append(append(bl, g1...), g2...)
-		case "nested+direct", "otherpkg+direct":
+		case "nested+direct", "otherpkg+direct", "inline+direct", "two-levels+direct":
+			wrap := func(pkg int, name string, g []Ref) Ref {
+				s := b.Set(pkg, name, g...)
+				s.Inline = placement == "inline+direct"
+				if placement == "two-levels+direct" {
+					outer := b.Set(pkg, name+"Outer", SetRef(s.ID))
+					return SetRef(outer.ID)
+				}
+				return SetRef(s.ID)
+			}
 			if len(g1) == 0 {
 				// arg cannot be nested: nest the second instead
 				if len(g2) == 0 {
 					return nil, "", false
 				}
-				s := b.Set(pkg2, "SetB", g2...)
-				bl = append(bl, SetRef(s.ID))
+				bl = append(bl, wrap(pkg2, "SetB", g2))
 			} else {
-				s := b.Set(pkg1, "SetA", g1...)
-				bl = append(bl, SetRef(s.ID))
+				bl = append(bl, wrap(pkg1, "SetA", g1))
 				bl = append(bl, g2...)
 			}
 		case "siblings":
